@@ -240,6 +240,31 @@ def run_with_a_port_taken(out, rnd, n):
                      lambda c: "%d ports, port index %d held by a foreign socket when start() is called" % (c["ports"], c["taken"]), sample=lambda c: c)
 
 
+SENDERS = ["192.168.1.5", "10.0.0.9", "172.31.255.254", "172.32.0.1", "100.64.3.3", "8.8.8.8", "203.0.113.7", "169.254.1.1", "198.18.0.1", "1.1.1.1", "224.0.0.251", "0.0.0.0", "255.255.255.255"]
+def run_senders(out, rnd):
+    """the loopback interface only ever shows 127.x senders; a device on a LAN, behind a VPN or carrier-grade NAT has another address.  The running
+    bridge's own protocol object (the one its transport holds) is handed valid broadcasts with sender addresses of every kind, as the loop would"""
+    from aioswitcher.bridge import SwitcherBridge
+    cases = []; io = []; ex = []
+    async def go():
+        log = []
+        ports = world.free_udp_ports(1); b = SwitcherBridge(lambda dev: log.append(c05.show(dev)), list(ports))
+        await b.start()
+        try:
+            tr = list(getattr(b, "_transports", {}).values())
+            proto = tr[0].get_protocol() if tr and hasattr(tr[0], "get_protocol") else None
+            if proto is None: return False
+            for k, src in enumerate(SENDERS * 2):
+                d, e = make_event(rnd, rnd.choice(list(FAMILY)), 0, k + 1); n0 = len(log)
+                try: proto.datagram_received(d, (src, rnd.choice([20002, 20003, 10002, 10003, 49152 + k])))
+                except Exception as x: log.append("raised " + type(x).__name__)
+                cases.append({"sender": src}); io.append(" ".join(log[n0:]) or "nothing delivered"); ex.append(e)
+        finally: await b.stop()
+        return True
+    if not asyncio.run(go()): out.notes.append("the bridge's protocol object could not be reached through its transport: stream senders-of-every-kind not run"); return
+    lib.differential(out, "valid-broadcasts-from-senders-of-every-kind", cases, io, None, ex, lambda c: "a valid broadcast whose sender address is %s" % c["sender"], sample=lambda c: c, classify=lambda c, i: "sender/" + c["sender"].split(".")[0])
+
+
 def run_unreferenced(out, rnd, trials):
     """the application keeps no reference: the bridge is created and started inside a helper, its callback is a bound method of an
     object nobody else holds, a garbage collection runs - and the broadcasts still arrive (the event loop owns the sockets)"""
@@ -307,9 +332,13 @@ def run(tier, rnd, out):
     run_unreferenced(out, rnd, 8 if tier == "quick" else 40)
     run_with_a_port_taken(out, rnd, 10 if tier == "quick" else 100)
     run_clock_steps(out, rnd, 6 if tier == "quick" else 60)
+    run_senders(out, rnd)
     run_repeats(out, "repeated-datagrams-one-at-a-time", [mk_repeats(rnd, rnd.randrange(1, 4), rnd.randrange(2, 12)) for _ in range(60 if tier == "quick" else 600)])
     out.exhaustive = tier == "thorough"
 
 
 def replay(rp, out):
+    if "sender" in rp["input"]:
+        import random
+        return run_senders(out, random.Random(int(rp.get("seed", 1))))
     (run_repeats if "expected_global" in rp["input"] else run_sequences)(out, rp.get("stream", "replay"), [rp["input"]])
